@@ -15,7 +15,7 @@ ASSUMPTIONS = [
 
 BOUNDS = {
     # profile, cfgs, depth, shard k, number of refused calls
-    'quick': [('quick', ops.CFG_MULTI, 1, 1, 1), ('quick', ops.CFG_MULTI[1:4], 2, 1, 1)],
+    'quick': [('quick', ops.CFG_MULTI[1:5], 1, 1, 1), ('quick', ops.CFG_MULTI[3:4], 2, 1, 1)],
     'thorough': [('quick', ops.CFG_MULTI + ops.CFG12[:3], 2, 1, 1), ('quick', ops.CFG_MULTI[:4], 3, 2, 1), ('quick', ops.CFG_MULTI[1:4], 1, 1, 2)],
 }
 
@@ -155,11 +155,22 @@ def check_node(cfg, steps, nfaults, res=None):
     return viols
 
 
+def alphabet(model, profile):
+    """sigma1 plus one step that needs Rock Ridge relocation (state set by refused calls may only show there)."""
+    out = ops.sigma1(model, profile)
+    if model.cfg.get('rr') and model.cfg.get('level', 1) < 4:
+        step = ops.deep_chain_step(model.cfg, 8, with_file=False)
+        m2 = ops.enabled(model, step)
+        if m2 is not None:
+            out.append((step, m2))
+    return out
+
+
 def tasks(tier):
     out = []
     for profile, cfgs, depth, k, nf in BOUNDS[tier]:
         for cfg in cfgs:
-            fn = lambda m, p=profile: ops.sigma1(m, p)
+            fn = lambda m, p=profile: alphabet(m, p)
             shallow, roots = explore.shards(cfg, fn, min(k, depth))
             common = {'cfg': cfg, 'profile': profile, 'depth': depth, 'nf': nf}
             out.append(dict(common, shallow=shallow))
@@ -171,7 +182,7 @@ def tasks(tier):
 def run_task(task):
     res = Result()
     cfg = task['cfg']
-    fn = lambda m: ops.sigma1(m, task['profile'])
+    fn = lambda m: alphabet(m, task['profile'])
     res.add('configs', cfg_name(cfg))
 
     def visit(cfg, steps, model, res):
